@@ -133,6 +133,89 @@ def inner_tag_table():
     return obs
 
 
+from contracts.common import *  # noqa: F403,E402
+from pyvc.contract import contract  # noqa: E402
+from pyvc.state import *  # noqa: F403,E402
+from pyvc.u import *  # noqa: F403,E402
+import z3  # noqa: E402
+
+
+@contract(ANALYZE + ":TagAnalysis._valid_inner_tag", prop="C21")
+def valid_inner(c):
+    """an inner tag is in place when ANY open block (not just the innermost) admits it:
+    `break` inside `if` inside `for` parses, so it must not be reported"""
+    names = [c.str(f"open_block_{i}") for i in range(3)]
+    stack = c.st.alloc(HList(items=[c.obj(ANALYZE + ":_BlockStackItem", f"item{i}", name=n, token=NONE) for i, n in enumerate(names)]))
+    admits = [c.str("admitting_block_0"), c.str("admitting_block_1")]
+    self = c.obj(ANALYZE + ":TagAnalysis", "analysis")
+    c.call(c.st.alloc(HList(items=list(admits))), stack, self_val=self)
+    want = z3.Or(*[a.t == n.t for a in admits for n in names])
+    c.ensures("true-iff-some-open-block-at-any-depth-admits-the-tag", lambda r: r.truth() == want)
+    c.raises()
+    c.assume_note("a stack of three open blocks and two admitting block names stand for any number (the test is a membership over both)")
+    c.replay("code", code=REPLAY_NESTED)
+
+
+@structural("C21", "entry-points")
+def entry_points():
+    obs = []
+    emod = load.get_module("liquid.environment")
+    env_cls = emod.classes["Environment"]
+    for fname in ("analyze_tags", "analyze_tags_async"):
+        fn = load._last_def(env_cls.body, fname)
+        calls = [cl for cl in flow.calls(fn) if flow.dotted(cl.func) == "self.analyze_tags_from_string"]
+        ok = len(calls) == 1 and flow.dotted(flow.kwarg(calls[0], "inner_tags")) == "inner_tags" and flow.dotted(flow.kwarg(calls[0], "name")) == "template_source.name" and [flow.dotted(a) for a in calls[0].args] == ["template_source.text"]
+        obs.append(flow.ob(f"Environment.{fname}:forwards-source-name-and-inner_tags", ok, flow.dotted(calls[0])[:120] if calls else "no call", replay_schema="code", replay_extra={"code": REPLAY_ASYNC}))
+    fn = load._last_def(env_cls.body, "analyze_tags_from_string")
+    calls = [cl for cl in flow.calls(fn) if flow.dotted(cl.func) == "TagAnalysis"]
+    ok = len(calls) == 1 and flow.dotted(flow.kwarg(calls[0], "inner_tags")) == "inner_tags" and flow.dotted(flow.kwarg(calls[0], "env")) == "self" and flow.dotted(flow.kwarg(calls[0], "name")) == "name"
+    obs.append(flow.ob("Environment.analyze_tags_from_string:analyses-with-this-environment-and-the-given-inner_tags", ok, flow.dotted(calls[0])[:120] if calls else "", replay_schema="code", replay_extra={"code": REPLAY_ASYNC}))
+    # every block tag names its end tag ("end" + name): the analysis recognises end tags and
+    # block tags through Tag.block / Tag.end
+    for m, cname, cn in flow.tag_classes():
+        parse = load._last_def(cn.body, "parse")
+        if parse is None:
+            continue
+        blocks = [cl for cl in flow.calls(parse) if flow.call_name(cl) == "parse_block"]
+        if not blocks:
+            continue
+        try:
+            name = flow.class_const(m, cname, "name")
+            block = flow.class_const(m, cname, "block")
+        except ValueError:
+            continue
+        try:
+            end = flow.class_const(m, cname, "end")
+        except ValueError:
+            end = None
+        if name in ("liquid",):
+            continue  # not a block tag: parses its own expression
+        obs.append(flow.ob(f"{cname}:block-tag-declares-its-end-tag", block is True and end == "end" + str(name), f"name={name!r} block={block!r} end={end!r}", replay_schema="code", replay_extra={"code": REPLAY_ASYNC}))
+    return obs
+
+
+REPLAY_NESTED = r'''
+def run(m):
+    from liquid import Environment
+    src = "{% for x in y %}{% if x %}{% break %}{% endif %}{% endfor %}"
+    a = Environment().analyze_tags_from_string(src)
+    return {"violated": bool(a.unexpected_tags or a.unknown_tags or a.unclosed_tags), "observed": [dict(a.unexpected_tags), dict(a.unknown_tags), dict(a.unclosed_tags)]}
+'''
+
+REPLAY_ASYNC = r'''
+def run(m):
+    import asyncio
+    from liquid import DictLoader, Environment
+    env = Environment(extra=True, loader=DictLoader({"t": "{% translate %}a{% plural %}b{% endtranslate %}{% macro m %}{% endmacro %}{% block b %}{% endblock %}", "u": "{% macro m %}x"}))
+    inner = {"if": ["else", "elsif"], "translate": ["plural"]}
+    a = env.analyze_tags("t", inner_tags=inner)
+    b = asyncio.run(env.analyze_tags_async("t", inner_tags=inner))
+    u = env.analyze_tags("u")
+    out = [dict(a.unknown_tags), dict(b.unknown_tags), dict(a.unexpected_tags), dict(b.unexpected_tags), sorted(u.unclosed_tags)]
+    return {"violated": out != [{}, {}, {}, {}, ["macro"]], "observed": out}
+'''
+
+
 not_covered("C21", "custom inner_tags maps supplied by the caller", "the main loop of _audit_tags is not under a symbolic contract (sets/defaultdicts over token lists); its totality is carried by the pop-guard obligation and the bounded exhaustive check")
 
 bounded("C21", "bounded/C21.py")
